@@ -81,7 +81,9 @@ def classify(fparams, gparams, call):
     except TypeError as e:
         msg = str(e)
     if "multiple values" in msg:
-        return "g-raises:multiple values"
+        # the recorded finding needs a positional slot of the expected signature that cannot be named (positional-only
+        # or *args): the kinds of the expected parameters are part of the key
+        return "g-raises:multiple values|f:" + "+".join(sorted({k for k, _, _ in fparams}))
     msg = re.sub(r"^\w+\(\) ", "", msg)
     msg = re.sub(r"'[^']*'", "'_'", msg)
     msg = re.sub(r"\d+", "N", msg)
